@@ -10,6 +10,7 @@ import (
 	"crypto/sha256"
 	"errors"
 	"fmt"
+	"os"
 	ds "github.com/ipfs/go-datastore"
 	dsq "github.com/ipfs/go-datastore/query"
 	dssync "github.com/ipfs/go-datastore/sync"
@@ -172,9 +173,14 @@ func (sd *duSide) respond(sc *duSc, key string) func(p peer.ID, n int, req *pb.M
 		}
 		switch req.Type {
 		case pb.Message_GET_VALUE:
-			if dp.Val > 0 {
-				tag := strings.TrimPrefix(string(req.Key), "/v/")
+			tag := strings.TrimPrefix(string(req.Key), "/v/")
+			switch {
+			case dp.Val > 0:
 				resp.Record = &recpb.Record{Key: req.Key, Value: []byte(fmt.Sprintf("%d|%s|%s", dp.Val, tag, sd.name))}
+			case dp.Val == -1: // a value the validator rejects for the key
+				resp.Record = &recpb.Record{Key: req.Key, Value: []byte(fmt.Sprintf("9|other%s|INVALID", tag))}
+			case dp.Val == -2: // a record filed under another key whose value would be the best for the requested key
+				resp.Record = &recpb.Record{Key: []byte("/v/elsewhere"), Value: []byte(fmt.Sprintf("9|%s|MISKEYED", tag))}
 			}
 		case pb.Message_GET_PROVIDERS:
 			for _, j := range dp.Provs {
@@ -277,6 +283,16 @@ func dualCheck(prop, part string, ops []string) verifsim.Check[duSc] {
 			}
 			sc.Wan = side("wan", 0)
 			sc.Lan = side("lan", 2000)
+			if sc.Op == "searchvalue" {
+				// some responders hold invalid or mis-keyed records
+				for _, ps := range [][]duPeer{sc.Wan, sc.Lan} {
+					for i := range ps {
+						if verifsim.Chance(t, "badRecord", 20) {
+							ps[i].Val = rapid.SampledFrom([]int{-1, -2}).Draw(t, "badVal")
+						}
+					}
+				}
+			}
 			if len(sc.Wan) > 0 && rapid.IntRange(0, 3).Draw(t, "wanSeeded") != 0 {
 				sc.WanSeeds = rapid.SliceOfNDistinct(rapid.IntRange(0, len(sc.Wan)-1), 1, min(3, len(sc.Wan)), func(i int) int { return i }).Draw(t, "wanSeeds")
 			}
@@ -288,7 +304,7 @@ func dualCheck(prop, part string, ops []string) verifsim.Check[duSc] {
 			if (sc.Op == "putvalue" || sc.Op == "provide") && verifsim.Chance(t, "wanFault", 35) {
 				sc.WanFault = map[string]string{"putvalue": "newer-local", "provide": "no-providers"}[sc.Op]
 			}
-			if sc.Op == "getvalue" && verifsim.Chance(t, "localRecords", 40) {
+			if (sc.Op == "getvalue" || sc.Op == "searchvalue") && verifsim.Chance(t, "localRecords", 40) {
 				sc.LocalWan = rapid.IntRange(0, 3).Draw(t, "localWan")
 				sc.LocalLan = rapid.IntRange(0, 3).Draw(t, "localLan")
 			}
@@ -350,7 +366,7 @@ func dualCheck(prop, part string, ops []string) verifsim.Check[duSc] {
 						rtd.RoutingTable().TryAddPeer(id, true, false)
 					}
 				}
-				if sc.Op == "getvalue" {
+				if sc.Op == "getvalue" || sc.Op == "searchvalue" {
 					// records held locally (written while the tables are still empty: nothing goes out)
 					if sc.LocalWan > 0 {
 						_ = d.WAN.PutValue(context.Background(), key, []byte(fmt.Sprintf("%d|k%d|localwan", sc.LocalWan, sc.Key)))
@@ -548,6 +564,74 @@ func dualCheck(prop, part string, ops []string) verifsim.Check[duSc] {
 							}
 						}
 						res.Class("findprov-count-reached")
+					}
+				case "searchvalue":
+					// C04 on the dual client: the two halves' streams merged through the validator
+					var stream [][]byte
+					ch, serr := d.SearchValue(ctx, key, dht.Quorum(0))
+					if serr == nil {
+						for v := range ch {
+							stream = append(stream, v)
+						}
+					}
+					rank := func(v []byte) int { r, _, _ := duParse(v); return r }
+					if os.Getenv("VERIF_DEBUG") != "" {
+						for _, half := range []*dht.IpfsDHT{d.WAN, d.LAN} {
+							hc, herr := half.SearchValue(ctx, key, dht.Quorum(0))
+							var hv []string
+							if herr == nil {
+								for v := range hc {
+									hv = append(hv, string(v))
+								}
+							}
+							fmt.Fprintf(os.Stderr, "DEBUG half stream %q err %v; dual stream %q err %v\n", hv, herr, stream, serr)
+						}
+					}
+					for i, v := range stream {
+						if (duValidator{}).Validate(key, v) != nil {
+							res.Fail("yields-valid", "C04/dual/yield-invalid", "the dual SearchValue yielded %q, which the validator rejects for %s", v, key)
+						}
+						if strings.Contains(string(v), "MISKEYED") {
+							res.Fail("yields-keyed", "C04/dual/yield-miskeyed", "the dual SearchValue yielded the value of a record filed under another key: %q", v)
+						}
+						if i > 0 && rank(v) <= rank(stream[i-1]) {
+							res.Fail("strictly-improving", "C04/dual/stream-not-improving", "the dual SearchValue yielded %q after %q", v, stream[i-1])
+						}
+					}
+					// The two streams are merged by routinghelpers.Parallel (an external module), whose search ends as soon as ONE half
+					// has finished after yielding something - the other half is cancelled then. So exactly one thing is certain about
+					// what was "supplied before the search ended": everything the half that finished first delivered or held locally.
+					// Which half that was is not observable; the final value is therefore held to the weaker of the two halves' bests
+					// (a half that supplied nothing valid never ends the search: then the other half's best is the bound).
+					halfBest := func(sm *verifnet.Sim, local int) int {
+						b := local
+						for _, e := range sm.Log() {
+							if e.Kind == "request" && e.Type == pb.Message_GET_VALUE && e.Outcome == "ok" && e.Resp.GetRecord() != nil && string(e.Resp.GetRecord().GetKey()) == key {
+								if v := e.Resp.GetRecord().GetValue(); (duValidator{}).Validate(key, v) == nil && rank(v) > b {
+									b = rank(v)
+								}
+							}
+						}
+						return b
+					}
+					bw, bl := halfBest(wan.sim, sc.LocalWan), halfBest(lan.sim, sc.LocalLan)
+					best := min(bw, bl)
+					if bw == 0 || bl == 0 {
+						best = max(bw, bl)
+					}
+					switch {
+					case best > 0 && len(stream) == 0:
+						res.Fail("final-best", "C04/dual/final-missing", "valid records were supplied (WAN half up to rank %d, LAN half up to rank %d) but the dual SearchValue yielded nothing (err %v)", bw, bl, serr)
+					case best > 0 && rank(stream[len(stream)-1]) < best:
+						res.Fail("final-best", "C04/dual/final-not-best", "the dual SearchValue ended on %q although the WAN half was supplied rank %d and the LAN half rank %d", stream[len(stream)-1], bw, bl)
+					case max(bw, bl) == 0 && len(stream) > 0:
+						res.Fail("not-found", "C04/dual/invented", "no valid record was supplied but the dual SearchValue yielded %q", stream)
+					}
+					if len(stream) > 0 && rank(stream[len(stream)-1]) > max(bw, bl) {
+						res.Fail("only-supplied", "C04/dual/invented", "the dual SearchValue ended on %q, better than anything either half was supplied (ranks %d / %d)", stream[len(stream)-1], bw, bl)
+					}
+					if best > 0 {
+						res.Class("searchvalue-with-valid-record")
 					}
 				case "wanlookup":
 					_, _ = d.WAN.GetClosestPeers(ctx, mhKey)
